@@ -60,21 +60,36 @@ Definition settle (eqv : N -> N -> bool) (s : st) : st :=
 
 Definition waiting_pc (p : apc) : bool := match p with WGate _ | WBlocked _ _ _ => true | _ => false end.
 
-Definition hstep (h : hst) (e : list N) : option (hst * list N) :=
+(* decoded harness events *)
+Inductive errm := MNil | MErr | MClose.
+Inductive hev := HCall (o : op) | HWait (w : wkind) (hc : bool) | HStep (a : nat) | HCancel (a : nat) | HErr (a : nat) (m : errm).
+
+Definition decode (e : list N) : option hev :=
+  match e with
+  | [1] => Some (HCall OGet)
+  | [2; v] => Some (HCall (OSet v))
+  | [3; f; k] => match swapf_of f k with Some g => Some (HCall (OSwap g)) | None => None end
+  | [4; kind; x; y; hc] =>
+    match wkind_of kind x y with
+    | Some w => if (hc <=? 1) then Some (HWait w (hc =? 1)) else None
+    | None => None
+    end
+  | [5; i] => Some (HStep (N.to_nat i))
+  | [6; i] => Some (HCancel (N.to_nat i))
+  | [7; i; 0] => Some (HErr (N.to_nat i) MNil)
+  | [7; i; 1] => Some (HErr (N.to_nat i) MErr)
+  | [7; i; 2] => Some (HErr (N.to_nat i) MClose)
+  | _ => None
+  end%N.
+
+Definition hstep_ev (h : hst) (e : hev) : option (hst * list N) :=
   let s := ms h in
   let eqv := eq_of_code (eqc h) in
   let ret s' := Some ({| eqc := eqc h; ms := s' |}, obs s') in
   match e with
-  | [1] => ret (step eqv s (Call OGet))
-  | [2; v] => ret (step eqv s (Call (OSet v)))
-  | [3; f; k] => match swapf_of f k with Some g => ret (step eqv s (Call (OSwap g))) | None => None end
-  | [4; kind; x; y; hc] =>
-    match wkind_of kind x y with
-    | Some w => if (hc <=? 1) then ret (step eqv s (CallWait w (hc =? 1))) else None
-    | None => None
-    end
-  | [5; i] =>
-    let a := N.to_nat i in
+  | HCall o => ret (step eqv s (Call o))
+  | HWait w hc => ret (step eqv s (CallWait w hc))
+  | HStep a =>
     match nth_error (acts s) a with
     | Some x =>
       match pc x with
@@ -89,8 +104,7 @@ Definition hstep (h : hst) (e : list N) : option (hst * list N) :=
       end
     | None => None
     end
-  | [6; i] =>
-    let a := N.to_nat i in
+  | HCancel a =>
     match nth_error (acts s) a with
     | Some x =>
       if waiting_pc (pc x) && negb (ctxc x) && negb (err_ready x)
@@ -98,17 +112,18 @@ Definition hstep (h : hst) (e : list N) : option (hst * list N) :=
       else None
     | None => None
     end
-  | [7; i; m] =>
-    let a := N.to_nat i in
+  | HErr a m =>
     match nth_error (acts s) a with
     | Some x =>
-      if waiting_pc (pc x) && hasch x && negb (ctxc x) && negb (eclosed x) && (m <=? 2)
-      then ret (step eqv (step eqv s (if m =? 2 then ErrClose a else ErrSend a (m =? 1))) (ErrWake a))
+      if waiting_pc (pc x) && hasch x && negb (ctxc x) && negb (eclosed x)
+      then ret (step eqv (step eqv s (match m with MNil => ErrSend a false | MErr => ErrSend a true | MClose => ErrClose a end)) (ErrWake a))
       else None
     | None => None
     end
-  | _ => None
-  end%N.
+  end.
+
+Definition hstep (h : hst) (e : list N) : option (hst * list N) :=
+  match decode e with Some ev => hstep_ev h ev | None => None end.
 
 (* ---------------- monitors (on the implementation's observations only) ----------------
    Clauses of property 15:
@@ -156,25 +171,23 @@ Definition add_held (v : N) (a : mactor) : mactor :=
   {| mkd := mkd a; mheld := mheld a ++ [v]; mcanc := mcanc a; mclosed := mclosed a; msent := msent a |}.
 
 (* 1. the event's own effect on the bookkeeping *)
-Definition mon_event (m : mstate) (e : list N) : list mactor :=
+Definition mon_event (m : mstate) (e : option hev) : list mactor :=
   let ml := mas m in
   match e with
-  | [1] => ml ++ [mnew (MKOp OGet) (mcur m)]
-  | [2; v] => ml ++ [mnew (MKOp (OSet v)) (mcur m)]
-  | [3; f; k] => match swapf_of f k with Some g => ml ++ [mnew (MKOp (OSwap g)) (mcur m)] | None => ml end
-  | [4; kind; x; y; hc] => match wkind_of kind x y with Some w => ml ++ [mnew (MKWait w) (mcur m)] | None => ml end
-  | [6; i] => upd ml (N.to_nat i) set_canc
-  | [7; i; 1] => upd ml (N.to_nat i) set_sent
-  | [7; i; 2] => upd ml (N.to_nat i) set_closed
+  | Some (HCall o) => ml ++ [mnew (MKOp o) (mcur m)]
+  | Some (HWait w _) => ml ++ [mnew (MKWait w) (mcur m)]
+  | Some (HCancel a) => upd ml a set_canc
+  | Some (HErr a MErr) => upd ml a set_sent
+  | Some (HErr a MClose) => upd ml a set_closed
   | _ => ml
-  end%N.
+  end.
 
 (* 2. the operation (if any) that is observed to go from its entry gate to "returned" at this step of its own:
       its critical section is the linearization point; (operation, observed result) *)
-Definition mon_lp (m : mstate) (ml : list mactor) (e o : list N) : option (op * N) :=
+Definition mon_lp (m : mstate) (ml : list mactor) (e : option hev) (o : list N) : option (op * N) :=
   match e with
-  | [5; i] =>
-    match nth_error ml (N.to_nat i), nth_error (mprev m) (N.to_nat i), nth_error o (N.to_nat i) with
+  | Some (HStep i) =>
+    match nth_error ml i, nth_error (mprev m) i, nth_error o i with
     | Some a, Some c0, Some c =>
       match mkd a with
       | MKOp o' => if (st_of c0 =? 1)%N && (st_of c =? 3)%N then Some (o', val_of c) else None
@@ -183,7 +196,7 @@ Definition mon_lp (m : mstate) (ml : list mactor) (e o : list N) : option (op * 
     | _, _, _ => None
     end
   | _ => None
-  end%N.
+  end.
 
 (* 3. per actor: clauses about a returned waiter (they stay true once true: the bookkeeping only grows),
       and the quiescence clause *)
@@ -208,11 +221,11 @@ Definition chk_actor (eqv : N -> N -> bool) (cur : N) (quiet : bool) (p : mactor
 
 Definition quiet_obs (o : list N) : bool := negb (existsb (fun c => (st_of c =? 1) || (st_of c =? 7))%N o).
 
-Definition mon (m : mstate) (e o : list N) : mstate * list (nat * nat) :=
+Definition mon_ev (m : mstate) (ev : option hev) (o : list N) : mstate * list (nat * nat) :=
   let eqv := eq_of_code (meq m) in
-  let ml1 := mon_event m e in
+  let ml1 := mon_event m ev in
   (* the sequential cell, advanced at the linearization point *)
-  let lp := mon_lp m ml1 e o in
+  let lp := mon_lp m ml1 ev o in
   let cur' := match lp with Some (o', _) => fst (cell_step eqv (mcur m) o') | None => mcur m end in
   let lp_fails :=
     match lp with
@@ -224,6 +237,8 @@ Definition mon (m : mstate) (e o : list N) : mstate * list (nat * nat) :=
   let ml2 := if (cur' =? mcur m)%N then ml1 else map (add_held cur') ml1 in
   let fails := lp_fails ++ flat_map (chk_actor eqv cur' (quiet_obs o)) (combine ml2 o) in
   ({| meq := meq m; mcur := cur'; mas := ml2; mprev := o |}, fails).
+
+Definition mon (m : mstate) (e o : list N) : mstate * list (nat * nat) := mon_ev m (decode e) o.
 
 Definition run_check_ccontainer (cfg : list N) (evs obss : list (list N)) : list issue :=
   run_check hstep mon (hinit cfg) (minit cfg) evs obss.
